@@ -275,6 +275,47 @@ pub fn judge_faulty(plan: &ClientPlan, run: &ClientRun, out: &mut RunOut) {
             );
         }
     }
+    // R2d: nothing is repeated that went through. When an exchange ran to its end on the terminal's side
+    // (final packet emitted and acknowledged, no fault at or after its start within the call), the same
+    // command is not sent again within that call - an earlier, failed attempt of the call is no reason
+    {
+        let mut by_op: std::collections::BTreeMap<i32, Vec<&ReqLog>> = Default::default();
+        for r in pt.requests.iter().filter(|r| !r.handshake && r.op >= 0) {
+            by_op.entry(r.op).or_default().push(r);
+        }
+        for (op, rs) in by_op {
+            let Some(o) = run.ops.iter().find(|o| o.index == op) else { continue };
+            for (i, r1) in rs.iter().enumerate() {
+                if r1.completed.is_none() || !r1.final_acked || r1.pkt.is_none() {
+                    continue;
+                }
+                // the client's acknowledgement of the final packet arrived: the next frame on that connection
+                // (or none) is not an anomaly, and no fault fired from the exchange's start to the call's end
+                let fault_after = pt.fired.iter().any(|f| f.seq >= r1.seq && f.seq < o.log_to);
+                let anomaly_after = pt.anomalies.iter().any(|(s, _, _)| *s >= r1.seq && *s < o.log_to);
+                if fault_after || anomaly_after || run.connect_log.iter().any(|(s, c)| *s >= r1.seq && *s < o.log_to && !matches!(c, ConnectSpec::Ok | ConnectSpec::DelayMs(_))) {
+                    continue;
+                }
+                if let Some(r2) = rs.iter().skip(i + 1).find(|r2| r2.frame == r1.frame && r2.conn != r1.conn) {
+                    out.stats.hit("probe.resend_judged");
+                    out.fail(
+                        "resent_after_completion",
+                        format!("r2d/{:02x}{:02x}", r1.frame[0], r1.frame[1]),
+                        format!(
+                            "{}: the exchange of {} ran to its end on connection {} (event #{}), nothing went wrong after that, yet the same command was sent again on connection {} (event #{})",
+                            o.name,
+                            crate::conn::hex(&r1.frame[..r1.frame.len().min(12)]),
+                            r1.conn,
+                            r1.seq,
+                            r2.conn,
+                            r2.seq
+                        ),
+                    );
+                    break;
+                }
+            }
+        }
+    }
     // R2 for failed writes: once a write on connection k failed, the client never tries again on k
     for k in 0..n_conn {
         let errs: Vec<usize> = log.entries.iter().enumerate().filter(|(_, e)| e.conn == k && matches!(e.ev, Ev::WriteErr)).map(|(i, _)| i).collect();
